@@ -307,16 +307,7 @@ func vC08PSet(d RTSPTransports) string {
 
 // ---------------------------------------------------------------- IP networks
 
-func vC08NetObs(n *IPNetwork, err error) string {
-	if err != nil {
-		return "NOErr"
-	}
-	ones, bits := net.IPMask(n.Mask).Size()
-	if len(n.IP) == 4 && bits == 32 {
-		return cqApp("NOv4", cqBytes([]byte(n.IP)), cqZ(int64(ones)))
-	}
-	return "NOv6"
-}
+func vC08NetObs(n *IPNetwork, err error) string { return vC08NetObsFull(n, err) }
 
 func vC08NetParse(text string) string {
 	raw, _ := json.Marshal(text)
@@ -714,7 +705,20 @@ func TestVerifC08(t *testing.T) {
 	nconf := n / 25
 	nscalar := n - nconf
 	for i := 0; i < nscalar; i++ {
-		switch i % 10 {
+		switch i % 12 {
+		case 10:
+			// schema level: one field of the real struct types, then a mutation of what was written, decoded
+			// into the real struct / the optional view
+			schema := r.Intn(2)
+			tree, _ := vC08FieldCase(r, out, schema)
+			class, mt := vC08Mutation(r, tree)
+			vC08DecCase(r, out, schema+2*r.Intn(2), class, mt)
+		case 11:
+			if i%24 == 11 {
+				vC08Ip6Cases(r, out, (i/24)%len(vC08Ip6Classes))
+			} else {
+				vC08TrackCase(r, out)
+			}
 		case 0, 1:
 			durCase(vC08Durations(r))
 		case 2:
@@ -767,20 +771,13 @@ func TestVerifC08(t *testing.T) {
 			text := vC08NetTexts(r)
 			obs := vC08NetParse(text)
 			class := "net-parse-" + map[bool]string{true: "error", false: "ok"}[obs == "NOErr"]
-			if obs == "NOv6" {
+			if strings.HasPrefix(obs, "(NOv6") {
 				class = "net-parse-v6"
 			}
 			out.Case(cqApp("CNetParse", cqBytes(text), obs), map[string]any{"kind": "ipnet-parse", "text": text, "back": obs}, class, obs != "NOErr")
 		default:
 			if r.Bool() {
-				nw := vC08RandNet(r, true)
-				raw, _ := nw.MarshalJSON()
-				var text string
-				_ = json.Unmarshal(raw, &text)
-				var back IPNetwork
-				err := back.UnmarshalJSON(raw)
-				eq := err == nil && reflect.DeepEqual(nw, back)
-				out.Case(cqApp("CNet6", cqBytes(text), cqBool(eq)), map[string]any{"kind": "ipnet6", "text": text, "back": back.String(), "err": fmt.Sprint(err)}, "net6-oracle", true)
+				vC08Ip6Cases(r, out, len(vC08Ip6Classes)-1)
 			} else {
 				// credentials: plain ones over the accepted alphabet, and sha256 ones
 				const alpha = "abcXYZ0189!$()*+.;<=>[]^_-{}@#&"
@@ -844,6 +841,19 @@ func TestVerifC08(t *testing.T) {
 			}
 			out.Case(cqApp("CConf", strconv.Itoa(kind), cqBool(valid), cqBool(equal)),
 				map[string]any{"kind": "conf-" + what, "yaml": y, "randomized_fields": touched, "first_differing_field": diff, "error": fmt.Sprint(err)}, class, true)
+		}
+		if i < 1 {
+			// the whole real structs against enc of the whole schema types, and mutations of those outputs
+			gt := vC08EncAllCase(out, 0, c2.Global().Values, "global")
+			pt := vC08EncAllCase(out, 1, &c2.PathDefaults, "pathdefaults")
+			for _, name := range sortedKeys(c2.OptionalPaths) {
+				pt = vC08EncAllCase(out, 1, c2.Paths[name], "path")
+				break
+			}
+			class, mt := vC08Mutation(r, gt)
+			vC08DecCase(r, out, 2*r.Intn(2), "whole-"+class, mt)
+			class, mt = vC08Mutation(r, pt)
+			vC08DecCase(r, out, 1+2*r.Intn(2), "whole-"+class, mt)
 		}
 		diff, err := vC08RoundTripGlobal(c2)
 		report(0, "global", diff, err)
